@@ -21,7 +21,19 @@ for sid in ids:
             r = subprocess.run(["/venv/bin/python", "check.py", prop], cwd="/verif", capture_output=True, text=True)
             v = [l for l in r.stdout.split("\n") if l.startswith("VIOLATION")]
             print(f"{sid:12s} {prop} exit={r.returncode} {'CAUGHT' if r.returncode == 1 and v else 'MISSED'} {time.time()-t:.0f}s {v[0] if v else r.stderr[-200:]}")
-            res[sid + ":" + prop] = (r.returncode, v[:2])
+            info = {"exit": r.returncode, "caught": bool(r.returncode == 1 and v), "violation_lines": len(v), "failing_inputs": []}
+            for line in v[:5]:
+                try:
+                    rp = json.load(open("/verif/" + line.split("replay=")[1].split()[0]))
+                    fl = rp.get("failure", {})
+                    info["failing_inputs"].append({"kind": fl.get("kind", rp.get("kind")), "where": fl.get("where"),
+                                                   "broken": (rp.get("broken") or rp.get("no_longer_checks") or [])[:2]})
+                except Exception as e:
+                    info["failing_inputs"].append({"kind": "unreadable replay", "where": str(e)[:80]})
+            res[sid + ":" + prop] = info
     finally:
         subprocess.run("git -C /repo reset -q --hard HEAD && find /repo -name __pycache__ -prune -exec rm -rf {} +", shell=True)
-json.dump(res, open("/tmp/seeded_results.json", "w"), indent=1)
+out = "/verif/seeded/RESULTS.json"
+old = json.load(open(out)) if os.path.exists(out) else {}
+old.update(res)
+json.dump(old, open(out, "w"), indent=1, sort_keys=True)
